@@ -1,9 +1,13 @@
 #!/bin/bash
 # usage: seedtest.sh <worktree> <mutant dir name> <check id> [<check id> ...]
 # 1. confirms the sub-agent's claims in its scratch worktree (demo passes clean, fails mutated, 133 tests pass mutated)
-# 2. applies the patch to /repo, runs the given checks (quick), reverts /repo.
+# 2. applies the patch to the repository, runs the given checks (quick), reverts.
+# The repository is /repo, or the scratch copy named by SEED_REPO (a path ending in /repo), at which the checks are
+# then pointed through VF_REPO_SRC -- so that /repo stays untouched while long runs use it.
 WT=$1; M=$2; shift 2
 D=$WT/_out/$M
+REPO=${SEED_REPO:-/repo}
+if [ "$REPO" != "/repo" ]; then export VF_REPO_SRC="$REPO/src"; fi
 cd $WT || exit 2
 git checkout -q -- src
 /venv/bin/python $D/demo.py >/dev/null 2>&1; echo "demo clean exit=$?"
@@ -12,9 +16,9 @@ git apply $D/patch.diff || { echo "patch does not apply in worktree"; exit 2; }
 /venv/bin/python -m pytest -q -p no:cacheprovider --timeout=900 --continue-on-collection-errors 2>&1 | tail -1
 git checkout -q -- src
 cd /verif
-git -C /repo apply $D/patch.diff || { echo "patch does not apply to /repo"; exit 2; }
+git -C $REPO apply $D/patch.diff || { echo "patch does not apply to $REPO"; exit 2; }
 for c in "$@"; do
   ./check $c quick > /tmp/seed_$c.out 2>&1; echo "check $c exit=$? $(grep -c '^VIOLATION' /tmp/seed_$c.out) violations"; grep -A1 "signature=" /tmp/seed_$c.out | cut -c1-260 | head -8
 done
-git -C /repo checkout -- .
+git -C $REPO checkout -- .
 git -C /verif clean -fdq replays   # NOTE: removes untracked replay files: commit wanted ones first
